@@ -300,6 +300,8 @@ def run(ctx):
     for c in ("Species", "Reaction"):
         g = py.fn("rdnetwork.%s._set_label" % c)
         ctx.check("assert_string_is_a_valid_label(label)" in pyfe.src(g), "C19.LABEL", g, g._qual, "label validated", "", "")
+    from .. import ffi
+    ffi.rule_sig(ctx, "C19.FFI", only={"sub", "sto", "k", "n_reactions", "n_species"})
     from .. import lints
     lints.run(ctx, "C19", ctx.py, ["rdnetwork"], truth_floor=20)
     ctx.assume("parsing of arbitrary equations and the print-parse round trip are not decided")
